@@ -470,3 +470,80 @@ pub fn program_text(lines: &[String]) -> String {
     }
     s
 }
+
+/// Templated programs that aim at the interplay of `loop {}` blocks (hoisted as a whole by
+/// `make_loops_contiguous`) with handoff references: a borrower one or two loop levels deep, the referenced
+/// singleton/optional/handoff at the root or in the outer loop, declared before or after the loop in program
+/// order, optionally with a pipe consumer of the handoff and with access groups split between the levels.
+pub fn loop_ref_template(r: &mut Rng) -> (Vec<String>, &'static str) {
+    fn shuffle(r: &mut Rng, v: &mut Vec<String>) {
+        for i in (1..v.len()).rev() {
+            let j = r.below(i as u64 + 1) as usize;
+            v.swap(i, j);
+        }
+    }
+    let depth = r.range(1, 2);
+    let kind = *r.pick(&["singleton()", "optional()", "handoff()"]);
+    let tlevel = if depth == 2 && r.chance(1, 3) { 1 } else { 0 };
+    let consumer = r.chance(1, 3);
+    let access = tlevel == 0 && r.chance(1, 3);
+    let outer_borrower = !access && r.chance(1, 4); // a second, root-level borrower
+    let borrow = |g: &str| format!("map(|x| {{ let _ = {g}s; x }})");
+    let mut root: Vec<String> = vec!["a = source_iter([1]);".into(), "b = source_iter([1]);".into()];
+    let mut l1: Vec<String> = vec!["a -> batch() -> t1;".into(), "t1 = tee();".into(), "t1 -> for_each(|_| ());".into()];
+    let mut l2: Vec<String> = Vec::new();
+    let inner_ref = if access { "#{1} " } else { "#" };
+    if depth == 1 {
+        l1.push(format!("b -> batch() -> {} -> for_each(|_| ());", borrow(inner_ref)));
+    } else {
+        l1.push("b -> batch() -> null();".into());
+        l2.push(format!("t1 -> batch() -> {} -> for_each(|_| ());", borrow(inner_ref)));
+        if r.chance(1, 2) {
+            l2.push("t1 -> batch() -> for_each(|_| ());".into());
+        }
+    }
+    let (tdecl, tcons) = if tlevel == 0 {
+        (format!("s = source_iter([2]) -> {kind};"), "s -> for_each(|_| ());".to_string())
+    } else {
+        (format!("s = t1 -> {kind};"), "s -> for_each(|_| ());".to_string())
+    };
+    let tl = if tlevel == 0 { &mut root } else { &mut l1 };
+    tl.push(tdecl);
+    if consumer {
+        tl.push(tcons);
+    }
+    if access {
+        root.push(format!("source_iter([3]) -> {} -> for_each(|_| ());", borrow("#{0} ")));
+    }
+    if outer_borrower {
+        root.push(format!("source_iter([3]) -> {} -> for_each(|_| ());", borrow("#")));
+    }
+    shuffle(r, &mut root);
+    shuffle(r, &mut l1);
+    shuffle(r, &mut l2);
+    let cut = r.below(root.len() as u64 + 1) as usize;
+    let mut out: Vec<String> = Vec::new();
+    for s in &root[..cut] {
+        out.push(format!("s {s}"));
+    }
+    out.push("lb".into());
+    let cut1 = r.below(l1.len() as u64 + 1) as usize;
+    for s in &l1[..cut1] {
+        out.push(format!("s {s}"));
+    }
+    if !l2.is_empty() {
+        out.push("lb".into());
+        for s in &l2 {
+            out.push(format!("s {s}"));
+        }
+        out.push("le".into());
+    }
+    for s in &l1[cut1..] {
+        out.push(format!("s {s}"));
+    }
+    out.push("le".into());
+    for s in &root[cut..] {
+        out.push(format!("s {s}"));
+    }
+    (out, if depth == 2 { "tmpl-loop-ref-nested" } else { "tmpl-loop-ref" })
+}
